@@ -378,6 +378,10 @@ pub trait Prop: Sync + Send {
     fn max_shrink_iters(&self) -> u32 {
         4000
     }
+    /// wall-clock budget for shrinking (0 = unlimited); a budget, never an oracle
+    fn max_shrink_time_ms(&self) -> u32 {
+        120_000
+    }
     fn parallelism(&self, ctx: &Ctx) -> usize {
         ctx.threads
     }
@@ -418,11 +422,13 @@ impl<P: Prop> DynProp for P {
                 let share = cases / threads as u64 + if (t as u64) < cases % threads as u64 { 1 } else { 0 };
                 scope.spawn(move || {
                     let strategy = self.strategy(ctx);
+                    let slowlog = std::env::var("VERIF_SLOWLOG").is_ok();
                     let mut loc = Local::new();
                     let config = Config {
                         cases: share as u32,
                         failure_persistence: None,
                         max_shrink_iters: self.max_shrink_iters(),
+                        max_shrink_time: self.max_shrink_time_ms(),
                         max_global_rejects: 1_000_000,
                         max_local_rejects: 1_000_000,
                         verbose: 0,
@@ -440,7 +446,18 @@ impl<P: Prop> DynProp for P {
                         if !l.frozen && (found.load(Ordering::SeqCst) || ctx.stop.load(Ordering::SeqCst)) {
                             return Ok(());
                         }
-                        match self.test(ctx, &case, &mut l) {
+                        if slowlog {
+                            eprintln!("START {:?} {}: {:?}", std::thread::current().id(), Prop::name(self), case);
+                        }
+                        let t_case = Instant::now();
+                        let r_case = self.test(ctx, &case, &mut l);
+                        if slowlog {
+                            eprintln!("END {:?}", std::thread::current().id());
+                        }
+                        if slowlog && t_case.elapsed().as_secs_f64() > 3.0 {
+                            eprintln!("SLOW {:.1}s {}: {:?}", t_case.elapsed().as_secs_f64(), Prop::name(self), case);
+                        }
+                        match r_case {
                             Ok(()) => {
                                 if !l.frozen {
                                     done.fetch_add(1, Ordering::Relaxed);
